@@ -384,4 +384,15 @@ def rule_maxcount(ctx):
                         lambda i: True, 2)
 
 
-RULES = [rule_prov, rule_mult, rule_leafcount, rule_multpair, rule_exec, rule_peak, rule_intsize, rule_maxcount]
+def rule_totals_state(ctx):
+    """Shared with C04-COPY (tracker attributes only; seed C03_9): the reported totals are read from
+    running totals kept on the tree; after a state transfer they describe the new structure only if
+    every tracker and every tracking flag is transferred on every path."""
+    from .c04 import rule_copy as src
+
+    return C.reuse_rule(ctx, src, "C04-COPY", "C03-TOTALSTATE",
+                        "running totals and their flags follow a state transfer",
+                        lambda i: any(t in i.construct for t in ("_flops", "_write", "_sizes", "_track_")), 3)
+
+
+RULES = [rule_prov, rule_mult, rule_leafcount, rule_multpair, rule_exec, rule_peak, rule_intsize, rule_maxcount, rule_totals_state]
